@@ -15,7 +15,9 @@ def run(ctx):
     ctx.partial += [
         "proved: split_off (BumpBox<[T]>, FixedBumpVec, BumpVec via FixedBumpVec), split_at, split_first/last, split_at_spare, merge (inverse / "
         "rejects wrong order), partition (exact as multisets, for every predicate incl. panics); buffers of the parts disjoint + tile the original",
-        "oracle only: into_flattened (count, order, capacity), zero-sized parts (by counts), independence of the parts after follow-up operations "
+        "into_flattened (all five owners; count, order, claimed capacity = exactly the buffer, no destructor; zero-sized: checked_mul / usize::MAX) "
+        "modelled + proved (into_flattened_partitions, rev_into_flattened_partitions, zst_into_flattened) + replayed",
+        "oracle only: zero-sized parts (by counts; model: zst_split_off_partitions), independence of the parts after follow-up operations "
         "(sibling re-read; the model-level argument is C01/C02 of the arena engine)",
         "BumpString / FixedBumpString::split_off belong to the `strs` engine (C09)",
     ]
